@@ -657,3 +657,10 @@ def lifespan_answers(log, n0):
     return forall(lambda k: log[k] == 'lifespan.startup.complete', n0, n - 1) and \
         (log[n - 1] == 'lifespan.startup.complete' or log[n - 1] == 'lifespan.startup.failed' or
          log[n - 1] == 'lifespan.shutdown.complete' or log[n - 1] == 'lifespan.shutdown.failed')
+
+
+def client_handler_task(name):
+    """The background task a client starts to run an application handler: the handler itself
+    (threaded client, asyncio client with a coroutine handler) or the asyncio client's wrapper
+    coroutine around a plain function."""
+    return name == 'handler' or name == 'async_handler'
